@@ -242,9 +242,15 @@ class Checker:
                 self.total += item["length"]
                 base = os.path.join(*item["path"])
 
+                # BEP 47 padding entries stand for zero bytes, never a file
+                attr = item.get("attr", "")
+                if isinstance(attr, bytes):
+                    attr = attr.decode("utf-8", "ignore")
+
                 self.fileinfo[i] = {
                     "path": str(self.root / base),
                     "length": item["length"],
+                    "pad": "p" in attr,
                 }
 
                 self.paths.append(str(self.root / base))
@@ -385,7 +391,7 @@ class FeedChecker(ProgMixin):
             total = self.fileinfo[i]["length"]
             self.progbar = self.get_progress_tracker(total, path)
             self.index = i
-            if os.path.exists(path):
+            if os.path.exists(path) and not self.fileinfo[i].get("pad"):
                 for piece in self.extract(path, partial):
                     if len(piece) == self.piece_length:
                         yield piece
